@@ -472,7 +472,7 @@ def var_document_section(run):
         'the real parent chain (real cascaded dicts, Pending values solved by the real resolve_var / solve, character '
         'ratios measured on an empty cache); non-trivial = the chain holds a pending value or an ex / ch length')
     done = 0
-    for _ in range(run.n(100, 1500)):
+    for _ in range(run.n(85, 1500)):
         text = var_document(run.rng)
         keys = var_keys(text)
         try:
@@ -626,15 +626,6 @@ def spec_tables_section(run):
     run.extra['spec_pinned_initial_values'] = len(pinned)
 
 
-def classify_spec(d):
-    """The recorded deviation from the CSS inheritance table."""
-    meta = d.get('meta') or {}
-    if d.get('section') == 'spec-tables' and meta.get('kind') == 'inheritance' and meta.get('key') == 'image_orientation' \
-            and d['impl'] == 'initial' and d['model'] == 'inherits':
-        return 'image-orientation-not-inherited'
-    return None
-
-
 def judge_spec(meta, impl, model):
     key = meta['key']
     name = key.replace('_', '-')
@@ -666,16 +657,6 @@ def replay_spec(meta):
         impl = inheritance_behaviour(meta['key'], meta['anonymous'])
         model = lean.run_driver(PROP.driver, [sx.line('specinherits', meta['key'])])[0]
     return judge_spec(meta, impl, model) if impl != model else None
-
-
-def replay_image_orientation_not_inherited():
-    """known finding: image-orientation (Inherited: yes) does not reach the <img> from its parent."""
-    document = docs.render('<div style="image-orientation: 90deg"><img id=i src="data:image/svg+xml,'
-                           '<svg xmlns=\'http://www.w3.org/2000/svg\' width=\'4\' height=\'2\'/>"></div>')
-    for label, style in styles_of(document):
-        if label == 'img#i':
-            return style['image_orientation'] == 'from-image'
-    return False
 
 
 # ---------------------------------------------------------------------------------------------
@@ -762,7 +743,7 @@ def pres_hints_section(run):
     for tag in ('table', 'td', 'col', 'img', 'hr'):
         for value in ('40', '40%', '4em', ' 40', '0'):
             cases.append((tag, {'width': value, 'height': value}))
-    while len(cases) < run.n(1000, 25000):
+    while len(cases) < run.n(800, 25000):
         tag = rng.choice(HINT_TAGS)
         names = HINT_ATTRS.get(tag, ['align', 'width'])
         attrs = {}
